@@ -251,6 +251,8 @@ func c20Value(name string) (eval.Value, bool) {
 	return nil, false
 }
 
+var c20OverCapacity int64
+
 type c20worker struct {
 	h   *drive.Harness
 	cfg *eval.Config
@@ -369,6 +371,12 @@ func c20CheckV(r *rep.Run, w *c20worker, c c20cfg, level int, how string, res ev
 		bareAtom := isInt == nil || isVar || vf.dne(atom)
 		if _, isPanic := cerr.(*drive.PanicErr); !isPanic && level == 0 && bareAtom && !strings.HasPrefix(atom, "(") && r.KnownOpen(c20Known) {
 			r.HitKnown(c20Known)
+			return
+		}
+		if level >= 8 && strings.Contains(cerr.Error(), "cannot exceed a maximum of") {
+			// a deep-level expression larger than the engine's documented capacity
+			// (C09's subject): counted, not judged
+			atomic.AddInt64(&c20OverCapacity, 1)
 			return
 		}
 		r.Violate("does-not-compile", c.String(), sprintf("the generated expression does not compile with the variables it was given: %v", cerr), d)
@@ -547,6 +555,11 @@ func c20(r *rep.Run) {
 		for level := 0; level <= 6; level++ {
 			sjobs = append(sjobs, sjob{c, level})
 		}
+		// deep levels (expressions of 10..100 KB): around every power of two up
+		// to 128, where per-level bookkeeping would wrap
+		for _, level := range []int{8, 15, 16, 17, 31, 32, 33, 63, 64, 65, 66, 100, 127, 128, 129} {
+			sjobs = append(sjobs, sjob{c, level})
+		}
 	}
 	var seedRuns int64
 	r.ParallelFor(len(sjobs), func(wi, ji int) {
@@ -555,6 +568,9 @@ func c20(r *rep.Run) {
 		n := seeds
 		if j.level >= 5 {
 			n = seeds / 4
+		}
+		if j.level >= 8 {
+			n = seeds / 200
 		}
 		for s := 0; s < n; s++ {
 			if s%512 == 0 {
@@ -729,6 +745,7 @@ func c20(r *rep.Run) {
 		r.Cov["multi_map_runs"] = multiRuns
 		seedRuns += multiRuns
 	}
+	r.Cov["deep_level_expressions_over_engine_capacity"] = atomic.LoadInt64(&c20OverCapacity)
 	r.Cov["decision_sequences"] = fmtSeq
 	r.Cov["shape_model_in_sync"] = outOfSync == 0
 	r.Cov["shape_model_out_of_sync_runs"] = outOfSync
